@@ -473,9 +473,22 @@ pub fn unit_daterange(o: &mut Out, tier: &str, r: &mut Rng) {
 // ---------------------------------------------------------------- qibla
 pub fn unit_qibla(o: &mut Out, tier: &str, r: &mut Rng) {
     let n = sizes(tier, 4000, 400000);
-    for _ in 0..n {
-        let lat = gen_lat(r, 90.);
-        let lon = gen_lon(r);
+    for i in 0..n {
+        let mut lat = gen_lat(r, 90.);
+        let mut lon = gen_lon(r);
+        // one case in four close to where the formula is delicate: rings of 10^-6 .. 3 degrees around the
+        // Kaaba and its antipode, and the Kaaba's meridian / antimeridian
+        match i % 8 {
+            1 | 2 => {
+                let (clat, clon) = if i % 8 == 1 { (21.423333, 39.823333) } else { (-21.423333, -140.176667) };
+                let rad = 10f64.powf(r.range(-6., 0.5));
+                let th = r.range(0., std::f64::consts::TAU);
+                lat = (clat + rad * th.sin()).clamp(-90., 90.);
+                lon = (clon + rad * th.cos()).clamp(-180., 180.);
+            }
+            3 => lon = if r.chance(0.5) { 39.823333 } else { -140.176667 } + if r.chance(0.5) { 0. } else { r.range(-1e-3, 1e-3) },
+            _ => {}
+        }
         let c = Coordinates::new(
             Latitude::try_from(lat).unwrap(),
             Longitude::try_from(lon).unwrap(),
